@@ -61,6 +61,7 @@ class SymCtx:
         self.assumptions = []
         self.inputs = {}       # name -> (sort, lo, hi)
         self.hints = {}        # name -> (lo, hi) used only when sampling validation points
+        self.char_ranges = {}
         self.goals = []
         self.notes = []
         self._fresh = 0
@@ -140,6 +141,40 @@ class SymCtx:
 
     def is_sym(self):
         return True
+
+    # ---- strings
+    def char(self, name, ranges):
+        """symbolic character restricted to the given code-point ranges"""
+        v = X.var(name, 'I')
+        lo = min(r[0] for r in ranges)
+        hi = max(r[1] for r in ranges)
+        self.inputs[name] = ('I', lo, hi)
+        self.char_ranges[name] = list(ranges)
+        conds = [X.and_(X.le(X.iconst(a), v), X.le(v, X.iconst(b))) for a, b in ranges]
+        self.assumptions.append(X.or_(*conds))
+        return Sym(v)
+
+    def string(self, cells):
+        from .symstr import SymStr
+        return SymStr(cells)
+
+    def code(self, cell):
+        return cell if isinstance(cell, Sym) else ord(cell)
+
+    def blob(self, name, lo, hi):
+        from .symstr import SymStr, Blob
+        return SymStr((Blob(name, self.int(name + '.len', lo, hi)),))
+
+    def is_blob(self, s):
+        from .symstr import SymStr, Blob
+        return isinstance(s, SymStr) and len(s.cells) == 1 and isinstance(s.cells[0], Blob)
+
+    def same_blob(self, a, b):
+        return a.cells[0] is b.cells[0]
+
+    def length(self, s):
+        from .symstr import sym_len
+        return sym_len(s)
 
     def choose(self, name, options):
         """nondeterministic choice among concrete options (each becomes a path)"""
@@ -223,6 +258,30 @@ class ConcCtx:
 
     def is_sym(self):
         return False
+
+    # ---- strings
+    def char(self, name, ranges):
+        return chr(int(self.env[name]))
+
+    def string(self, cells):
+        return ''.join(cells)
+
+    def code(self, cell):
+        return ord(cell)
+
+    def blob(self, name, lo, hi):
+        n = int(self.env[name + '.len'])
+        letter = chr(97 + (sum(map(ord, name)) % 26))
+        return (letter + name)[:n].ljust(n, letter)
+
+    def is_blob(self, s):
+        return False
+
+    def same_blob(self, a, b):
+        return a == b
+
+    def length(self, s):
+        return len(s)
 
     def choose(self, name, options):
         options = list(options)
